@@ -90,8 +90,12 @@ func (m *proxyImpl) Do(line string) string {
 		p.Target = ln.Addr().String()
 		p.DBName = "db"
 		p.Addr = "127.0.0.1:0"
-		p.Passthroughs = []*regexp.Regexp{regexp.MustCompile(`^/pt/`)}
-		p.AlwaysForward = []*regexp.Regexp{regexp.MustCompile(`^/fw/`)}
+		// a prefix expression and a wildcard-suffix expression each (the latter compiled the way
+		// the configuration file's patterns are: `*.png` -> ^.*\.png$)
+		png, _ := lhttp.CompileMatch("*.png")
+		fwd, _ := lhttp.CompileMatch("*.fwd")
+		p.Passthroughs = []*regexp.Regexp{regexp.MustCompile(`^/pt/`), png}
+		p.AlwaysForward = []*regexp.Regexp{regexp.MustCompile(`^/fw/`), fwd}
 		p.PollTXIDInterval = time.Millisecond
 		p.PollTXIDTimeout = 300 * time.Millisecond
 		p.PrimaryRedirectTimeout = 60 * time.Millisecond
@@ -255,7 +259,9 @@ func genProxy(c *Ctx) error {
 		nHist = 120
 	}
 	methods := []string{"GET", "HEAD", "POST", "PUT", "PATCH", "DELETE", "OPTIONS"}
-	paths := []string{"/", "/a/b", "/pt/x", "/fw/x", "/litefs/health", "/ptx", "/a/pt/"}
+	paths := []string{"/", "/a/b", "/pt/x", "/fw/x", "/litefs/health", "/ptx", "/a/pt/",
+		// wildcard-suffix expressions, and query strings that end like them or contain a prefix
+		"/img/x.png", "/a/x.fwd", "/a/b?avatar=me.png", "/a/b?next=/pt/x", "/a/b?f=y.fwd", "/img/x.png?v=2"}
 	enc := func(s string) string { return strings.ReplaceAll(s, " ", "_") }
 	for h := 0; h < nHist; h++ {
 		cs := c.Begin()
